@@ -3,7 +3,8 @@
 // (genCase/runCase): one optimiser {BFGS, conjugate gradient, Powell, downhill simplex, SimpleMultiDimensions,
 // SimpleNewtonMultiDimensions, Brent (outward / inward bracketing), golden section, Newton 1-D, Newton backtracking
 // through OneDimensionOptimizationTools::lineSearch, MetaOptimizer (2-3 sub-optimisers over a partition of the variables,
-// step / full, n = 1..3)} on one convex objective of dimension 1..6 from one start, with or without interval
+// step / full, n = 1..3, each sub-optimiser left as built or pre-configured with a constraint policy of its own, which the
+// meta-optimiser's policy overrides)} on one convex objective of dimension 1..6 from one start, with or without interval
 // constraints (containing start and minimiser), one of the three constraint policies, tolerance 1e-4..1e-10,
 // default or small (20..500) evaluation cap, verbose 0, profiler / message handler null. The optimiser that runs is
 // either the one built and configured directly or a copy of that configured prototype: copy-constructed, clone()-d, or
@@ -223,7 +224,7 @@ enum Policy { AUTO = 0, KEEP = 1, IGNORE = 2 };
 const char* PNAME[] = {"auto", "keep", "ignore"};
 const string& policyStr(int p) { return p == AUTO ? AutoParameter::CONSTRAINTS_AUTO : p == KEEP ? AutoParameter::CONSTRAINTS_KEEP : AutoParameter::CONSTRAINTS_IGNORE; }
 
-struct SubOpt { int kind; bool full; vector<int> vars; };
+struct SubOpt { int kind; bool full; vector<int> vars; int presetPolicy = -1; };  // presetPolicy: constraint policy the sub-optimiser was configured with before it was handed over (-1: untouched)
 struct Case {
   int opt = BFGS; Spec spec; vector<double> start; int startMode = 0;
   vector<Iv> cons; bool anyCons = false; int policy = AUTO; bool consOnFunction = false;
@@ -379,6 +380,9 @@ Case genCase(vf::Ctx& c, const Filter& f, const vector<int>& opts) {
     if (k.origin == 3) k.decoy = c.flag();
     if (getenv("C10_KEEP_PROTO")) k.protoDrop = false;
   }
+  // A sub-optimiser handed to the meta-optimiser may have been configured with a constraint policy of its own before; the
+  // policy in force is the meta-optimiser's (MetaOptimizer::doInit hands its own policy to every sub-optimiser it runs).
+  if (k.opt == META) for (auto& s : k.subs) s.presetPolicy = static_cast<int>(c.weighted({3, 1, 1, 1})) - 1;
   // Cost bound. Powell's stop rule is relative to |f| (2|fp-fret| <= tau(|fp|+|fret|), Numerical Recipes): when the minimum
   // value is exactly 0 it is only met once two successive values are bitwise equal, and a run with the default cap
   // legitimately lasts until that cap: 10^6 iterations, 2*10^6 objective evaluations, 30 CPU-seconds under the sanitizers
@@ -401,7 +405,7 @@ string showCase(const Case& k) {
   if (k.opt == LINESEARCH) o << " direction=" << (k.dirMode ? "newton" : "-gradient") << "*" << k.dirScale;
   if (k.opt == META) {
     o << " meta(n=" << k.metaN << (k.subCap ? ", sub-optimiser caps " + to_string(k.subCap) : string()) << ")";
-    for (auto& s : k.subs) { o << " [" << ONAME[s.kind] << "," << (s.full ? "full" : "step") << ":"; for (int v : s.vars) o << " x" << v; o << "]"; }
+    for (auto& s : k.subs) { o << " [" << ONAME[s.kind] << "," << (s.full ? "full" : "step") << (s.presetPolicy >= 0 ? string(",preset policy ") + PNAME[s.presetPolicy] : string()) << ":"; for (int v : s.vars) o << " x" << v; o << "]"; }
   }
   if (k.origin) {
     o << " optimiser=" << (k.origin == 1 ? "copy-constructed from" : k.origin == 2 ? "clone() of" : k.decoy ? "fresh one built on another function, then assigned" : "fresh one on the same function, then assigned")
@@ -568,6 +572,7 @@ Out runCase1(vf::Ctx& c, const Case& k) {
         unsigned short der = (s.kind == SNEWTON || s.kind == NEWTON1D) ? 2 : (s.kind == BFGS || s.kind == CG) ? 1 : 0;
         auto so = makeOpt(s.kind, o.obj);
         if (k.subCap) so->setMaximumNumberOfEvaluations(k.subCap);
+        if (s.presetPolicy >= 0) so->setConstraintPolicy(policyStr(s.presetPolicy));
         desc->addOptimizer(ONAME[s.kind], so, names, der, s.full ? MetaOptimizerInfos::IT_TYPE_FULL : MetaOptimizerInfos::IT_TYPE_STEP);
       }
       opt = make_shared<MetaOptimizer>(o.obj, std::move(desc), k.metaN);
